@@ -748,4 +748,10 @@ def pathName (tbl : List String) (i : Nat) : String := tbl.getD i ""
 def coveredBy (tbl : List String) (leaves : List Leaf) (mentioned : List Nat) (allow : List String) : Bool :=
   leaves.all (fun l => (l.tid != 0 && mentioned.contains l.tid) || allow.contains (pathName tbl l.pid))
 
+/-! ## `charon combine`: sufficiency rule -/
+
+/-- `cmd/combine.Combine`, per validator: `if len(pkSet) < lock.Threshold { return error }` — the
+command goes on to `tbls.RecoverSecret` iff at least `threshold` key shares were loaded. -/
+def combineAccepts (threshold shares : Nat) : Bool := !(decide (shares < threshold))
+
 end CharonV.Ssz
